@@ -157,6 +157,7 @@ def do_replay(spec, model):
 
 def run_check(pid, tier, seed, jobs, select=None):
     t0 = time.time()
+    wall_budget = int(os.environ.get('PYVC_WALL_S', '2400' if tier == 'quick' else '21600'))
     mod = importlib.import_module(f'props.{pid.lower()}')
     units = mod.units()
     tasks = [('unit', pid, i) for i, u in enumerate(units) if (not select or select in u.name)
@@ -190,6 +191,11 @@ def run_check(pid, tier, seed, jobs, select=None):
                     m['assumed'] = sorted(set(m['assumed']) | set(r['assumed']))
                     if r['status'] != 'ok' and m['status'] == 'ok':
                         m['status'], m['error'] = r['status'], r['error']
+                nfailed = sum(1 for o in merged[idx]['obligations'] if o['status'] == 'failed')
+                if nfailed >= 8 and (r.get('pending') or []):
+                    # a unit that has already failed is not explored to the end (the remaining paths can only add more failures)
+                    merged[idx].setdefault('notes', []).append(f"exploration stopped after {nfailed} failed obligations")
+                    r['pending'] = []
                 for w in r.get('pending') or []:
                     more.append(('unit', pid, idx, [w], 40))
                 r['pending'] = []
@@ -197,6 +203,16 @@ def run_check(pid, tier, seed, jobs, select=None):
             if rounds == 0:
                 bnd_all = bnd_new
             if not more:
+                break
+            if time.time() - t0 > wall_budget:
+                # out of wall-clock budget: what is left is undecided (exit 2), never a pass and never a violation
+                left = {}
+                for t_ in more:
+                    left[t_[2]] = left.get(t_[2], 0) + 1
+                for idx, n_ in left.items():
+                    if merged[idx]['status'] == 'ok':
+                        merged[idx]['status'] = 'undecided'
+                        merged[idx]['error'] = f"wall budget of {wall_budget}s exceeded with {n_} unexplored path prefixes"
                 break
             rounds += 1
             results = pool.map(_dispatch, more, chunksize=1)
